@@ -80,17 +80,20 @@ package netflow5
 //@ spec dotted4(a mathint) string = ipText4(a / 16777216, (a / 65536) % 256, (a / 256) % 256, a % 256)
 
 //@ func (*Message).JSONMarshal
+//@   opt json
 //@   requires b != nil && b.js.Ph == 0 && b.js.Dp == 0 && jscanon(b.js) && jssafe(m.AgentID)
 //@   ensures [valid] err == nil ==> b.js.Ph == 8
 //@   modifies b
 
 //@ func (*Message).encodeAgent
+//@   opt json
 //@   requires b != nil && jsKey5(b.js, 1) && jssafe(m.AgentID)
 //@   ensures b.js == jsset(old(b.js), 3)
 //@   slot AgentID m.AgentID
 //@   modifies b
 
 //@ func (*Message).encodeHeader
+//@   opt json
 //@   requires b != nil && jsKey5(b.js, 1)
 //@   ensures b.js == jsset(old(b.js), 3)
 //@   slot Version m.Header.Version
@@ -105,6 +108,7 @@ package netflow5
 //@   modifies b
 
 //@ func (*Message).encodeFlow
+//@   opt json
 //@   requires b != nil && jsKey5(b.js, 3) && b.js.Ph == 2
 //@   ensures b.js == jsset(old(b.js), 5)
 //@   slot SrcAddr dotted4(r.SrcAddr)
@@ -130,6 +134,7 @@ package netflow5
 //@   modifies b
 
 //@ func (*Message).encodeFlows
+//@   opt json
 //@   requires b != nil && jsKey5(b.js, 1) && b.js.Ph == 3
 //@   ensures err == nil ==> b.js == jsset(old(b.js), 5)
 //@   modifies b
